@@ -563,7 +563,12 @@ func (m *Machine) concInt(t *Term, what string) int64 {
 }
 
 func (m *Machine) concLen(fr *Frame, t *Term, what string) int {
-	v := m.concInt(t, what)
+	var v int64
+	if t.IsConst() {
+		v = signExt(t.Val, t.W)
+	} else {
+		v = signExt(m.ConcretizeLen(t, what), t.W)
+	}
 	if v > 1<<24 {
 		// a huge concrete allocation would exhaust the engine itself: record it
 		// as an allocation event and stop the path.
@@ -576,6 +581,10 @@ func (m *Machine) concLen(fr *Frame, t *Term, what string) int {
 
 func (m *Machine) makeSlice(fr *Frame, elem types.Type, ln, cp int) Slice {
 	m.noteAlloc(fr, int64(cp)*m.sizeof(elem))
+	return m.makeSliceNoNote(elem, ln, cp)
+}
+
+func (m *Machine) makeSliceNoNote(elem types.Type, ln, cp int) Slice {
 	a := make([]Value, cp)
 	if cp > 0 {
 		z := m.zero(elem)
@@ -857,7 +866,13 @@ func (m *Machine) callBuiltin(fr *Frame, fn *ssa.Builtin, args []Value, pos toke
 		if newCap < n+len(add) {
 			newCap = n + len(add)
 		}
-		m.noteAlloc(fr, int64(newCap)*8)
+		{
+			esz := int64(8)
+			if st, ok := fn.Type().(*types.Signature).Params().At(0).Type().Underlying().(*types.Slice); ok {
+				esz = m.sizeof(st.Elem())
+			}
+			m.noteAlloc(fr, int64(newCap)*esz)
+		}
 		r := make([]Value, n+len(add), newCap)
 		copy(r, x.A)
 		for i, v := range add {
@@ -1027,6 +1042,37 @@ func (m *Machine) callBuiltin(fr *Frame, fn *ssa.Builtin, args []Value, pos toke
 		return recv
 	case "ssa:deferstack":
 		return &fr.defers
+	case "SliceData":
+		s := args[0].(Slice)
+		return dataPtr{A: s.A}
+	case "StringData":
+		return dataPtr{S: args[0], isStr: true}
+	case "String":
+		dp, ok := args[0].(dataPtr)
+		n := int(m.concInt(args[1].(*Term), "unsafe.String len"))
+		if !ok {
+			if n == 0 {
+				return ""
+			}
+			unsupported("unsafe.String on a plain pointer")
+		}
+		if dp.isStr {
+			return mkStr(strBytes(dp.S)[:n])
+		}
+		return mkStr(bytesOf(Slice{A: dp.A[:n]}))
+	case "Slice":
+		dp, ok := args[0].(dataPtr)
+		n := int(m.concInt(args[1].(*Term), "unsafe.Slice len"))
+		if !ok {
+			if p, isP := args[0].(*Value); isP && p == nil && n == 0 {
+				return Slice{}
+			}
+			unsupported("unsafe.Slice on a plain pointer")
+		}
+		if dp.isStr {
+			return mkByteSlice(strBytes(dp.S)[:n])
+		}
+		return Slice{A: dp.A[:n:n]}
 	case "real", "imag", "complex":
 		unsupported("complex builtins")
 	}
@@ -1049,6 +1095,13 @@ func (m *Machine) doRecover(caller *Frame) Value {
 		panic(engineBug{fmt.Sprintf("recover of %T", p)})
 	}
 	return Iface{}
+}
+
+// dataPtr is the result of unsafe.SliceData / unsafe.StringData.
+type dataPtr struct {
+	A     []Value
+	S     Value
+	isStr bool
 }
 
 // ---------- iteration ----------
